@@ -528,6 +528,20 @@ def c03(tier, rng):
             if total % 4 == 1:
                 add(stream, [(0, 512), (512, len(stream))] if len(stream) > 512 else [(0, len(stream))], ["bufstep", "cut512"],
                     " ; pollstream 0 ; pollstream 0 ; pollstream 0")
+    # remaining lengths that are multiples of 128 (first length byte 0x80, second 0x80 for multiples of 16384), the read ending
+    # inside the length field: a length that is not complete yet says nothing
+    for sizes in ([122, -1, 250, -2, 378], [16378, -1, 122], [16384 * 2 - 7, 3]):
+        stream, starts = mk_stream(sizes)
+        tail = " ; " + " ; ".join(["pollstream 0"] * (len(sizes) + 1))
+        for st_ in starts:
+            for off in (1, 2, 3):
+                p_ = st_ + off
+                if 0 < p_ < len(stream):
+                    add(stream, [(0, p_), (p_, len(stream))], ["len128"], tail)
+                    if st_ > 0:
+                        add(stream, [(0, st_), (st_, p_), (p_, p_ + 1), (p_ + 1, len(stream))], ["len128"], tail)
+        if len(stream) < 1200:
+            add(stream, [(a, a + 1) for a in range(len(stream))], ["len128", "bytewise"], tail)
     # a read that brings whole packets and ends 1..5 bytes into the fixed header of a packet whose remaining length takes three
     # bytes (thorough: also four), the packets before it full of bytes >= 0x80: what lies behind the received bytes in the
     # receive buffer is never part of a length
